@@ -178,7 +178,8 @@ def with_required(rng, v, p=0.1):
 
 # ------------------------------------------------------------------ evaluation features (C06-C14, C19, C09)
 
-ENV = {"HOME": "/home/u", "NUM": "42", "BOOLISH": "true", "NULLISH": "null", "DIR": "$merge:a", "EMPTY": "", "SP": "a b"}
+ENV = {"HOME": "/home/u", "NUM": "42", "BOOLISH": "true", "NULLISH": "null", "DIR": "$merge:a", "EMPTY": "", "SP": "a b",
+       "EQ": "k=v=w", "REFTXT": "{a}"}
 ENCODES = ["base64", "sha256", "join", "join:,", "join:-", "prefix:p-", "flatten", "values", "tolist:=", "tolist::",
            "flags", "flags:x", "base64:x", "prefix", "tolist", "nosuch", "values:x", "sha256:1", "join:a:b"]
 
@@ -320,7 +321,7 @@ def inject_encode(rng, doc):
 
 def interp_string(rng, doc):
     refs = [".".join(p) for p, x in map_paths(doc) if not isinstance(x, (dict, list))]
-    refs += ["$env:HOME", "$env:NUM", "$env:NOSUCH", "nosuch", "$repeat"]
+    refs += ["$env:HOME", "$env:NUM", "$env:NOSUCH", "nosuch", "$repeat", "$env:EQ", "$env:REFTXT"]
     lits = ["", "a", " ", "-", "}", ":", "x}y", "é", "{", "{ ", "a\nb", "$", "$$", "\""]
     parts = []
     for _ in range(rng.randint(0, 4)):
